@@ -80,16 +80,19 @@ func (c *config) format(file ast.Node, filename string) error {
 		return err
 	}
 
-	if c.write {
-		err = os.WriteFile(filename, buf.Bytes(), 0)
-		if err != nil {
-			return err
-		}
-	} else {
-		fmt.Println(buf.String())
+	// The new tags can make a struct longer than the positions recorded for
+	// the nodes around it allow for. Formatting the text we've produced, with
+	// positions that match it, gives the layout gofmt would
+	src, err := format.Source(buf.Bytes())
+	if err != nil {
+		return err
 	}
 
-	return nil
+	if c.write {
+		return os.WriteFile(filename, src, 0)
+	}
+	_, err = os.Stdout.Write(src)
+	return err
 }
 
 // rewrite rewrites the node for structs
